@@ -792,6 +792,15 @@ def emit(root, res, st):
     known = load_known(root)
     out_lines = []
     viol = 0
+    # a broken obligation whose search found nothing, when a later part of the same check did find a failing input: the
+    # failing input is the report, the broken obligation becomes a remark under it
+    remarks = []
+    def is_known(v):
+        return any(f.get('status') == 'known' and f.get('property') == pid and f.get('monitor') == v[3]
+                   and f.get('signature', '') in v[0] for f in known)
+    if any(v[2] and not is_known(v) for v in res.violations):
+        remarks = [v[0] for v in res.violations if not v[2]]
+        res.violations = [v for v in res.violations if v[2]]
     for what, rp, found, mon in res.violations:
         k = next((f for f in known if f.get('status') == 'known' and f.get('property') == pid and f.get('monitor') == mon
                   and f.get('signature', '') in what), None)
@@ -801,6 +810,8 @@ def emit(root, res, st):
             viol += 1
             out_lines.append('VIOLATION property=%s replay=%s%s' % (pid, rp, '' if found else ' no-failing-input-found'))
             out_lines.append('  # ' + what)
+    for r in remarks:
+        out_lines.append('  # also: ' + r)
     s = res.stats
     nobl = len(res.obligations)
     ndis = sum(1 for o in res.obligations if o[1])
